@@ -33,7 +33,7 @@
            (its task still sits in the shielded yield, or was woken and has not run).
      Two concurrent acquire_on_behalf_of for the same borrower (former observation O1, finding F16) are NOT
      outside the domain any more: the second one is rejected and the theorems cover those histories.
-     (The pinned variants `enq_pinned` / `fy_cancel_pinned` taint where they corrupt the bookkeeping.) *)
+     (`enq_pinned` does not taint; `fy_cancel_pinned` taints where it releases the wrong borrower.) *)
 From AV Require Import Base C10Defs.
 
 Definition bid := nat.
@@ -191,9 +191,11 @@ Definition enqueue (s : st) (t : tid) (b : bid) (tn : bool) : st :=
 Definition enq_head (s : st) (t : tid) (b : bid) : st * res :=
   if mem b (keys (queue s)) then (s, RRuntime) else (enqueue s t b (tainted s), RBlocked).
 
-(* before the fix: `self._wait_queue[borrower] = event` unconditionally (overwrites an existing slot) *)
+(* before the fix: `self._wait_queue[borrower] = event` unconditionally (overwrites an existing slot).
+   It does NOT taint: a duplicate waiting borrower is inside the domain of the theorems, so the witnesses on
+   step_f16_pinned refute those very theorems (tainted stays for O2 only) *)
 Definition enq_pinned (s : st) (t : tid) (b : bid) : st * res :=
-  (enqueue s t b (tainted s || mem b (keys (queue s))), RBlocked).
+  (enqueue s t b (tainted s), RBlocked).
 
 Definition step_gen (setter : st -> option nat -> st) (fyc : st -> tid -> bid -> st * res)
                     (enq : st -> tid -> bid -> st * res) (s : st) (o : op) : st * res :=
